@@ -1,7 +1,7 @@
 (* C17 — bklr keeps exactly the $required skeleton (cmd/bklr/required.go).
    Only statements here; proofs are in Proofs/RequiredProofs.v. *)
 From Coq Require Import String List ZArith.
-From Bkl Require Import Model.Value Model.Tools Proofs.RequiredProofs.
+From Bkl Require Import Model.Value Model.Eval Model.Tools Proofs.RequiredProofs Proofs.PlainProofs Proofs.ValidProofs.
 Import ListNotations.
 Local Open Scope string_scope.
 Local Open Scope list_scope.
@@ -30,6 +30,14 @@ Print Assumptions C17_empty_iff.
 Theorem C17_idempotent : forall v r, required v = Some r -> required r = Some r.
 Proof. exact required_idempotent. Qed.
 Print Assumptions C17_idempotent.
+
+(* for an input with no other directives, bkl refuses to evaluate it with the required-field error exactly
+   when bklr's output is non-empty; otherwise it evaluates *)
+Theorem C17_agrees_bkl : forall o v, plain v -> req_only o v -> height v <= depth_limit -> v <> VNull ->
+  (eval_docs o [v] = Err ERequired <-> required v <> None) /\
+  (required v = None -> eval_docs o [v] = Ok [finalize (dn v)]).
+Proof. exact bklr_agrees_bkl. Qed.
+Print Assumptions C17_agrees_bkl.
 
 (* non-vacuity: a concrete input with a satisfied and an unsatisfied marker *)
 Example C17_example :
